@@ -232,11 +232,12 @@ ADDR = re.compile(r'0x[0-9a-fA-F]{6,}')
 LAST_CLS = ['']
 
 
-def guarded(fn):
-    """-> ('ok', result) | ('exc', 'Class: message') | ('timeout', site); LAST_CLS[0] = exception class"""
+def guarded(fn, patience=1):
+    """-> ('ok', result) | ('exc', 'Class: message') | ('timeout', site); LAST_CLS[0] = exception class.
+    patience > 1 (parse + compile calls): generous budget, so that a loaded machine is not mistaken for a hang."""
     LAST_CLS[0] = ''
     signal.signal(signal.SIGALRM, _alarm)
-    signal.alarm(CALL_TIMEOUT)
+    signal.alarm(CALL_TIMEOUT * patience)
     try:
         return 'ok', fn()
     except CallTimeout:
@@ -510,7 +511,7 @@ class Fresh(object):
         # pass 1: own behaviour (gives the reference encodings); pass 2 adds decode-of-reference lines
         for codec in CODECS:
             for ne in (False, True):
-                st, spec = guarded(lambda: asn1tools.compile_string(self.text, codec, numeric_enums=ne))
+                st, spec = guarded(lambda: asn1tools.compile_string(self.text, codec, numeric_enums=ne), patience=15)
                 if st != 'ok':
                     self.out[(codec, ne)] = {'st': 'exc', 'msg': str(spec), 'beh': {}}
                     self.bytes[(codec, ne)] = {}
@@ -602,7 +603,7 @@ def replay(case, fresh, snaps, full=False):
         rec = {'a': step['a'], 'codec': step.get('codec', ''), 'ne': bool(step.get('ne', False)),
                'st': 'ok', 'msg': '', 'cls': '', 'beh': [], 'late': []}
         if step['a'] == 'P':
-            st, r = guarded(lambda: pformat_eval(d))
+            st, r = guarded(lambda: pformat_eval(d), patience=15)
             if st == 'ok':
                 d = r
             else:
@@ -611,7 +612,7 @@ def replay(case, fresh, snaps, full=False):
             d = copy.deepcopy(d)
         else:
             codec, ne = step['codec'], bool(step['ne'])
-            st, spec = guarded(lambda: asn1tools.compile_dict(d, codec, numeric_enums=ne))
+            st, spec = guarded(lambda: asn1tools.compile_dict(d, codec, numeric_enums=ne), patience=15)
             if st == 'ok':
                 beh = behaviour(spec, modname, codec, ne, fresh.bytes[(codec, ne)])
                 rec['beh'] = digest_map(beh)
